@@ -645,11 +645,11 @@ def run(ctx):
     from vf.props import c16_race
     from vf.explore import dfs
     rbound = 1 if ctx.quick else 2
-    rst = dfs.explore(ctx, c16_race.MOD, "run_race", c16_race.cases_for(ctx.tier), rbound, cap=None, chunksize=2, free_bound=2)
-    ctx.note("disconnect race: preemption bound %d, free bound 2: executions=%d outcomes=%d" % (rbound, rst.executions, len(rst.observations)))
+    rst, rphases = dfs.explore_phases(ctx, c16_race.MOD, "run_race", c16_race.phases_for(ctx.tier), chunksize=2)
     ctx.coverage.update({
         "race_executions": rst.executions,
         "race_preemption_bound": rbound,
+        "race_phases": rphases,
         "race_distinct_outcomes": len(rst.observations),
     })
     ctx.coverage.update({
